@@ -43,8 +43,9 @@ func checkC05(c *core.Ctx, r *core.Report) {
 	r.Explanation = "C05 (result order, limits, pagination), comparator and cut-off clauses only: " +
 		"(1) comparator exactness — every ordering function handed to sort.Slice/SliceStable/sort.Sort, IQR.Sort and IQR merging (and the sort command's less functions) is collected from the call sites, and no function reachable from it over static calls is a tolerance equality (|a-b| < eps): a comparator that calls close values equal is not a strict weak order, so adjacent output can be out of order for values closer than the tolerance; " +
 		"(2) SIBLING — sortProcessor.less and lessDirectRead decide through the same compareValues; " +
+		"(4) the sort-index search's decision to stop at the limit is control-dependent on the number of sort keys (the index orders by the first key only); " +
 		"(3) newest-first cut-off — in Searcher.fetchRRCs the raw end time returned by getNextBlocks is used only as operand of the max/min clamp against the segment cut-off timestamp, or on paths where the sort mode is neither newest-first nor oldest-first: records beyond the cut-off are never released while unread segments may still hold newer ones."
-	r.NotCovered = "the streaming merge itself (getNextBlocks, unsent records), limit = prefix, pagination completeness, the multi-key early-exit logic of the sort-index path: all depend on timestamp values and block histories"
+	r.NotCovered = "the streaming merge itself (getNextBlocks, unsent records), limit = prefix, pagination completeness, tie-group completion of the sort-index path: all depend on timestamp values and block histories"
 
 	// ---------------------------------------------------------------- (1)
 	tol := map[*ssa.Function]bool{}
@@ -239,6 +240,73 @@ func checkC05(c *core.Ctx, r *core.Report) {
 		r.OK("GUARD", construct, c.Pos(calls[0].Pos()), fmt.Sprintf("%d uses of the raw end time: clamp operands, or reached only when the sort mode is unordered", nUses))
 	}
 	_ = types.Universe
+
+	// ---------------------------------------------------------------- (4) sort-index early exit
+	{
+		fn := c.Fn("pkg/segment/query/processor", "Searcher.fetchSortedRRCsFromQSRs")
+		early := c.Field("pkg/segment/query/processor", "sortIndexState.didEarlyExit")
+		sortEles := c.Field("pkg/segment/structs", "SortExpr.SortEles")
+		n := 0
+		for _, b := range fn.Blocks {
+			for _, in := range b.Instrs {
+				st, ok := in.(*ssa.Store)
+				if !ok {
+					continue
+				}
+				fa, ok := st.Addr.(*ssa.FieldAddr)
+				if !ok || core.FieldOfAddr(fa) != early {
+					continue
+				}
+				if k, ok := st.Val.(*ssa.Const); !ok || k.Value == nil || k.Value.String() != "true" {
+					continue
+				}
+				n++
+				// control-dependent on the number of sort keys
+				dep := false
+				for d := b; d != nil && d.Idom() != nil; d = d.Idom() {
+					ifi, ok := core.LastIf(d.Idom())
+					if !ok || len(d.Preds) != 1 {
+						continue
+					}
+					for _, o := range c.Origins(ifi.Cond, 0) {
+						if o.Kind == "field" && o.Obj == types.Object(sortEles) {
+							dep = true
+						}
+					}
+					// len(x.SortEles) appears as a call origin
+					var walk func(v ssa.Value, depth int)
+					walk = func(v ssa.Value, depth int) {
+						if depth > 4 || v == nil {
+							return
+						}
+						switch x := v.(type) {
+						case *ssa.BinOp:
+							walk(x.X, depth+1)
+							walk(x.Y, depth+1)
+						case *ssa.UnOp:
+							if fa, ok := x.X.(*ssa.FieldAddr); ok && core.FieldOfAddr(fa) == sortEles {
+								dep = true
+							}
+							walk(x.X, depth+1)
+						case *ssa.Call:
+							if bi, ok := x.Call.Value.(*ssa.Builtin); ok && bi.Name() == "len" {
+								walk(x.Call.Args[0], depth+1)
+							}
+						case *ssa.Phi:
+							for _, e := range x.Edges {
+								walk(e, depth+1)
+							}
+						}
+					}
+					walk(ifi.Cond, 0)
+				}
+				r.Check(dep, "DEPENDS", fmt.Sprintf("processor.Searcher.fetchSortedRRCsFromQSRs:early-exit#%d-depends-on-the-number-of-sort-keys", n), c.Pos(st.Pos()),
+					"the decision to stop reading the sort index at the limit is control-dependent on the number of sort keys",
+					"the sort-index search stops at the limit regardless of the number of sort keys: the index orders by the first key only, so for a multi-key sort records of other segments that tie on the first key with the last value sent are never delivered and the result is not a prefix of the requested order")
+			}
+		}
+		r.Floor("DEPENDS", "early-exit decisions of the sort-index search", n, 1)
+	}
 }
 
 // funcValues resolves a function-typed value to the functions it can denote
